@@ -424,6 +424,15 @@ func (e *ControllerEngine) StartWatches(name string, ws ...Watch) error {
 		return errors.Errorf("controller %q is not running", name)
 	}
 
+	// List the active informers again. Another Goroutine may have started one
+	// of our watches - and its informer - since we listed them. Going by the
+	// stale list that watch would look like one that lost its informer. We'd
+	// start it again, and leak the event handler of the first.
+	clear(activeInformer)
+	for _, gvk := range e.infs.ActiveInformers() {
+		activeInformer[gvk] = true
+	}
+
 	// Start new sources.
 	for i, w := range ws {
 		wid := WatchID{Type: w.wt, GVK: gvks[i]}
